@@ -232,8 +232,8 @@ def relaxArcs (dest cur : Nat) : List (Nat × Int) → LibSt → Except (Nat × 
       else relaxArcs dest cur rest (relaxOne dest cur v w s)
     else relaxArcs dest cur rest s
 
-/-- The `for g.visiting.Len() > 0` loop. `none` = the fuel ran out (never observed; the driver
-reports it as a divergence). -/
+/-- The `for g.visiting.Len() > 0` loop. `none` = the fuel ran out; with `libFuel` this does not
+happen (`Lemmas.libShortest_terminates`). -/
 def evalLoop (adj : Nat → List (Nat × Int)) (dest : Nat) :
     Nat → LibSt → Except (Nat × Nat) (Option LibSt)
   | 0, s => .ok (if s.visiting.isEmpty then some s else none)
